@@ -88,10 +88,14 @@ def fit_window(shape, fit_shape, x, y):
 
 def any_window(shape, wshape, x, y):
     """(rows, cols) of the window of any (odd or even) size wshape=(h, w) 'around' (x, y), trimmed to the image:
-    indices ceil(pos - n/2) .. ceil(pos + n/2) - 1 (for odd n: centred on the pixel containing the position)."""
+    the n indices starting at ceil(pos - n/2) (for odd n: centred on the pixel containing the position). The window
+    always has exactly n pixels before trimming: taking the upper end as ceil(pos + n/2) instead loses a pixel when
+    pos + n/2 rounds down to an integer (seen: x = 29.000000000000004, n = 10 -> 25..33, nine columns; a false alarm
+    of `model_image_default_window_is_model_bounding_box` in a vp check run with VERIF_SEED=1)."""
     h, w = int(wshape[0]), int(wshape[1])
-    r0, r1 = int(np.ceil(y - h / 2.0)), int(np.ceil(y + h / 2.0))
-    c0, c1 = int(np.ceil(x - w / 2.0)), int(np.ceil(x + w / 2.0))
+    r0 = int(np.ceil(y - h / 2.0))
+    c0 = int(np.ceil(x - w / 2.0))
+    r1, c1 = r0 + h, c0 + w
     rows = np.arange(max(r0, 0), min(r1, shape[0]))
     cols = np.arange(max(c0, 0), min(c1, shape[1]))
     return rows, cols
